@@ -63,7 +63,9 @@ fn boundary(which: i64) -> (Bases, Bases) {
         0 => ([false; 4], [false; 4]),
         1 => ([true; 4], [true; 4]),
         2 => ([false, true, false, false], [false; 4]),
-        _ => ([false; 4], [true, false, false, true]),
+        3 => ([false; 4], [true, false, false, true]),
+        // three bases on a side (the complement of a 3-set is not a permutation-invariant set)
+        _ => ([true, true, false, true], [true, false, true, true]),
     }
 }
 
@@ -285,15 +287,15 @@ fn plan(quick: bool) -> Vec<Part> {
     let mut v = vec![];
     let d = |p: Part, bext: &[i64], labels: &[i64], full: i64, allb: i64| p.dim("bext", bext).dim("labels", labels).dim("full", &[full]).dim("allb", &[allb]);
     if quick {
-        v.push(d(Part::new("C05", "R1+RT", 4, Space::singles(4, 7).plus(Space::thresholds(4, 6))), &[0, 1], &[0], 0, 0));
-        v.push(d(Part::new("C05", "R1/full", 4, Space::singles(4, 6)), &[0, 1], &[0], 1, 2));
+        v.push(d(Part::new("C05", "R1+RT", 4, Space::singles(4, 7).plus(Space::thresholds(4, 6))), &[0, 4], &[0], 0, 0));
+        v.push(d(Part::new("C05", "R1/full", 4, Space::singles(4, 6)), &[1, 4], &[0], 1, 2));
         v.push(d(Part::new("C05", "R2", 4, Space::pairs(4, 4).plus(Space::with_rc(4, 6))), &[3], &[1], 0, 0));
         v.push(d(Part::new("C05", "R1+RT", 5, Space::singles(5, 7).plus(Space::thresholds(5, 6))), &[0, 2], &[0], 0, 0));
         v.push(d(Part::new("C05", "R1", 6, Space::singles(6, 7)), &[0], &[0], 0, 0));
     } else {
         v.push(d(Part::new("C05", "R1+RT", 4, Space::singles(4, 9).plus(Space::thresholds(4, 8))), &[0, 1], &[0], 0, 0));
         v.push(d(Part::new("C05", "R1+RT/budgets", 4, Space::singles(4, 8).plus(Space::thresholds(4, 7))), &[0, 3], &[0], 0, 1));
-        v.push(d(Part::new("C05", "R1/full", 4, Space::singles(4, 7)), &[0, 1, 2, 3], &[0], 1, 2));
+        v.push(d(Part::new("C05", "R1/full", 4, Space::singles(4, 7)), &[0, 1, 2, 3, 4], &[0], 1, 2));
         v.push(d(Part::new("C05", "R2", 4, Space::pairs(4, 5).plus(Space::with_rc(4, 8))), &[3], &[0, 1], 0, 0));
         v.push(d(Part::new("C05", "R3", 4, Space::triples(4, 4)), &[0], &[1], 0, 0));
         v.push(d(Part::new("C05", "R1+RT", 5, Space::singles(5, 9).plus(Space::thresholds(5, 8))), &[0, 2], &[0], 0, 0));
@@ -348,6 +350,64 @@ fn all_plans(rep: &mut Report, tier: &str) {
     rep.evaluations += runs;
     rep.states += 10;
     rep.extra.insert("pass_counts_debruijn4".into(), json!(plans));
+}
+
+/// many observations of the same k-mers in one bucket (> 20, where an unstable sort would start to reorder):
+/// the summarizer must still see every k-mer's observations in input order
+fn many_observations(rep: &mut Report) {
+    use debruijn::kmer::*;
+    MEM_UNIT.with(|m| m.set(1));
+    let mut g = Lcg(17);
+    let motif = g.dna(23);
+    // 60 reads: the motif with varying flanks (so extensions differ per observation), labels = read index
+    let reads: Vec<Read> = (0..60u64)
+        .map(|i| {
+            let mut s = vec![(i % 4) as u8];
+            s.extend_from_slice(&motif);
+            s.push(((i / 4) % 4) as u8);
+            if i % 7 == 3 {
+                s = rc(&s);
+            }
+            Read::plain(s, 1000 - i)
+        })
+        .collect();
+    macro_rules! go {
+        ($K:ty) => {
+            for stranded in [false, true] {
+                let model = Table::from_reads(&reads, <$K>::k(), stranded);
+                let seqs = to_seqs(&reads);
+                let nk: usize = reads.iter().map(|r| r.seq.len() - (<$K>::k() - 1)).sum();
+                let kmer_mem = nk * std::mem::size_of::<($K, u64)>();
+                for m in [kmer_mem + 1, kmer_mem / 3, kmer_mem / 40] {
+                    let boxed = Box::new(Recording { calls: std::sync::atomic::AtomicUsize::new(0) });
+                    let res = filter_kmers::<$K, _, _, _, _>(&seqs, &boxed, stranded, false, m);
+                    let p = note_passes();
+                    let mut o = Outcome::default();
+                    judge(&mut o, &format!("60 reads sharing a motif, K={}, budget {} ({} passes)", <$K>::k(), m, p), &res, &model, &|_| true, &|key, en, d: &Vec<(u8, u64, Vec<u8>)>| {
+                        if d.len() != en.obs.len() {
+                            return Err(format!("{} observations, reference {}", d.len(), en.obs.len()));
+                        }
+                        for (i, ((ev, lab, _), ob)) in d.iter().zip(en.obs.iter()).enumerate() {
+                            let (l, r) = decode_exts(*ev);
+                            let ok = if model.is_pal_key(key) { merged(&l, &r) == merged(&ob.l, &ob.r) } else { l == ob.l && r == ob.r };
+                            if !ok || *lab != ob.label {
+                                return Err(format!("observation {} of {} is (exts {:#010b}, label {}), input order gives label {} [read {} pos {}]", i, d.len(), ev, lab, ob.label, ob.read, ob.pos));
+                            }
+                        }
+                        Ok(())
+                    }, false, false);
+                    rep.count("special:many_observations_runs", 1);
+                    rep.transitions += 1;
+                    if let Some((sig, det)) = o.err {
+                        rep.violation(Violation { signature: if sig == "table-summary-wrong" { "observations-not-in-input-order".into() } else { sig }, case: json!({"special": "many_observations", "k": <$K>::k(), "stranded": stranded, "budget": m}), detail: det });
+                    }
+                }
+            }
+        };
+    }
+    go!(Kmer4);
+    go!(Kmer8);
+    go!(Kmer16);
 }
 
 /// 70 000-base homopolymer: saturating count
@@ -414,7 +474,7 @@ fn main() {
     for p in plan(tier == "quick") {
         vglue::case::run_part(&p, &FLAGS[..8], 151, &run_case, &mut rep);
     }
-    for (name, f) in [("debruijn4", &(|r: &mut Report| all_plans(r, tier)) as &dyn Fn(&mut Report)), ("saturation", &(|r: &mut Report| saturation(r))), ("unhooked", &(|r: &mut Report| unhooked(r)))] {
+    for (name, f) in [("debruijn4", &(|r: &mut Report| all_plans(r, tier)) as &dyn Fn(&mut Report)), ("saturation", &(|r: &mut Report| saturation(r))), ("many_observations", &(|r: &mut Report| many_observations(r))), ("unhooked", &(|r: &mut Report| unhooked(r)))] {
         if let Err(e) = std::panic::catch_unwind(std::panic::AssertUnwindSafe(|| f(&mut rep))) {
             let msg = e.downcast_ref::<String>().cloned().or_else(|| e.downcast_ref::<&str>().map(|x| x.to_string())).unwrap_or_default();
             rep.violation(Violation { signature: "panic".into(), case: json!({"special": name}), detail: format!("subject panicked in special run {}: {}", name, msg) });
@@ -423,7 +483,7 @@ fn main() {
     let seen = PASSES_SEEN.lock().unwrap().clone();
     rep.extra.insert("pass_counts_executed".into(), json!(seen));
     rep.count("distinct_pass_counts_executed", seen.len() as u64);
-    rep.rule = "every read set of the listed families x {stranded, unstranded} x boundary-extension variants x label assignments; CountFilter(n) for every n in 0..=max multiplicity+1, CountFilterSet(n), and a recording summarizer (exactly-once / exact multiset / input order); memory budgets: with MEM_UNIT=1 per part (cfg allb): 2 = every budget from 1 to kmer_mem+1, 1 = every budget that yields a distinct slice count, 0 = {1 pass, 2 passes, ~9 slices, maximum passes}; non-base summarizers use {1 pass, 2 passes, ~9 slices}; plus the order-4 de Bruijn read (all 256 buckets) under every budget (all 31 pass plans the planner can produce), a 70 000-base homopolymer (saturating count), and all 4^K present/absent lookups".into();
+    rep.rule = "every read set of the listed families x {stranded, unstranded} x boundary-extension variants x label assignments; CountFilter(n) for every n in 0..=max multiplicity+1, CountFilterSet(n), and a recording summarizer (exactly-once / exact multiset / input order); memory budgets: with MEM_UNIT=1 per part (cfg allb): 2 = every budget from 1 to kmer_mem+1, 1 = every budget that yields a distinct slice count, 0 = {1 pass, 2 passes, ~9 slices, maximum passes}; non-base summarizers use {1 pass, 2 passes, ~9 slices}; plus the order-4 de Bruijn read (all 256 buckets) under every budget (all 31 pass plans the planner can produce), a 70 000-base homopolymer (saturating count), 60 reads sharing a 23-base motif (> 20 observations per k-mer: input order under the recording summarizer), and all 4^K present/absent lookups".into();
     rep.assumptions.push("hook MEM_UNIT replaces only the constant 10^9 in `memory_size * 10^9`; LAST_PASSES reports bucket_ranges.len()".into());
     rep.assumptions.push("'every pass count from 1 to 256' is read as 'every pass count the planner can produce' (31 distinct values; all are executed)".into());
     rep.floor("distinct_pass_counts_executed", 31);
